@@ -46,6 +46,9 @@ claimed = {
  "C18": dict(cat="exploration", tech="bounded exhaustive input enumeration on the real code: complete function table x command shapes, and reflectively generated values of every model type, JSON round trip",
              text="Every function CreateFunctionData registers for every feature type the factory accepts (discovered from the working tree) x 9 command shapes is built through ReadCmdType/ReplyCmdType/NotifyOrWriteCmdType, encoded, decoded and compared (function, payload type, partial/delete split, selectors, elements); every exported struct type of package model x {zero, each single field, list lengths 0/1/2, all fields} to depth 3 is round-tripped through JSON and compared modulo absent==empty lists and relative end times under a fixed clock.",
              ref="4 C18"),
+ "C02": dict(cat="model_checking", tech="explicit-state closure search over list states per Updater type on the real code (every transition through UpdateList, FeatureRemote.UpdateData, FeatureLocal.UpdateData), independent reference fold",
+             text="For every type implementing model.Updater (discovered from the working tree) a breadth-first search to closure over all list states reachable with identifiers {1,2} (thorough {1,2,3}, depth 3) and two payload fields x an update menu of every filter shape (full, partial, identifier-less, partial+selector, empty selector update, delete by id/payload selector, delete elements, delete+partial); every transition is executed through the per-type UpdateList, the reply/notify path (persisting and not) and the local API and compared with an independent fold of the cmdOption rules, including the returned value, order by identifier and idempotence.",
+             ref="4 C02"),
 }
 checks = []
 for pid, c in sorted(claimed.items()):
